@@ -149,7 +149,7 @@ def coq_setup(qk):
         + "; ".join(f"({coq_str(u)}, {cud(s, rf)})" for u, s, rf in c["redefs"]) + "] false)"
         for n, c in CTX.items()) + "])"
     probes = "[" + "; ".join(coq_probe(p) for p in PROBES) + "]"
-    return (HEADER0 + f"Definition QKv := QK {coq_bool(qk['F6'])} {coq_bool(qk['F7'])} {coq_bool(qk['F8'])} {coq_bool(qk['F23'])}.\n"
+    return (HEADER0 + f"Definition QKv := QK {coq_bool(qk['F6'])} {coq_bool(qk['F7'])} {coq_bool(qk['F8'])} {coq_bool(qk['F110'])}.\n"
             f"Definition SUv := SU QKv ({cfg(False)}, {cfg(True)}) ({table(False)}, {table(True)}) {objs} {probes}.\n")
 
 
@@ -833,7 +833,7 @@ def detect_quirks(ck):
         notes["F6"] = f"unexpected active contexts {o['active']} after the failed activation"
         qk["F6"] = True
     steps, _ = run_sequence(W23)
-    qk["F23"] = steps[-1][1]["regs"][0]["layers"] >= 3
+    qk["F110"] = steps[-1][1]["regs"][0]["layers"] >= 3
     steps, f7 = run_sequence(W7)
     inside, after = steps[1][0][1], steps[3][0][1]
     qk["F7"] = after == inside and after != pristine()["base"]["base:yard"]
@@ -983,7 +983,7 @@ def run(ck):
     ck.extra["theorem_status"] = {
         "full (every quirk setting, no bound)": ["C12_active_is_stack", "C12_activation_pure_on_context"],
         "guarded by defect switches off (proved), refuted for pint as it is": {
-            "C12_exit_restores / C12_block_restores": "guard q_rebuild_on_hit=false (F23); get_base_units additionally q_base_cache_ctx_blind=false (F7); C12_exit_restores_refuted, C12_exit_restores_base_refuted",
+            "C12_exit_restores / C12_block_restores": "guard q_rebuild_on_hit=false (F110); get_base_units additionally q_base_cache_ctx_blind=false (F7); C12_exit_restores_refuted, C12_exit_restores_base_refuted",
             "C12_failed_activation_atomic": "guard q_partial_activation=false (F6) and q_rebuild_on_hit=false; C12_failed_activation_atomic_refuted",
             "C12_shared_context_unmodified / C12_other_registry_unaffected": "guard q_rewrite_shared=false (F8); C12_shared_context_unmodified_refuted, C12_other_registry_refuted"},
         "repaired model (all switches off)": ["C12_exit_restores_repaired", "C12_failed_activation_atomic_repaired"],
